@@ -260,7 +260,7 @@ func init() {
 // Marshaler outputs by class.
 var (
 	HostValid   = []string{`1`, `"x"`, `null`, `true`, `{"a":[1,2,{"b":null}]}`, ` { "a" : 1 , "b" : [ ] } `, "[1,\n\t2]", `"a<b>&c"`, `"é "`, `-0.5e+3`, `[]`, `{}`, `"𝄞"`, "\"é\"", `[[[[]]]]`, `{"":""}`}
-	HostLenient = []string{`01`, `1.`, `-.5`, `[1,02]`, "\"a\x01b\"", "\"tab\tin\"", `"\x"`, `"\u12"`, `"\uZZZZ"`, `{"a":"\q"}`, "[\"\n\"]", `+1`, `.5`, `1e`, `--1`}
+	HostLenient = []string{"\"a\x01b\"", "\"tab\tin\"", `"\x"`, `"\u12"`, `"\uZZZZ"`, `{"a":"\q"}`, "[\"\n\"]", "{\"k\x1f\":1}"}
 	HostBadUTF8 = []string{"\"\xff\"", "\"\xc3\"", "[\"a\xe2\x82\"]", "{\"k\xed\xa0\x80\":1}"}
-	HostBroken  = []string{``, ` `, `{`, `[1,`, `[1 2]`, `{"a"}`, `{"a":}`, `1 2`, `nul`, `tru`, `[1]]`, `{"a":1,}`, `[,]`, `"unterminated`, `{a:1}`, `'x'`, `}`, "\x00", `[1]x`, `{"a":1}}`, `"\ud800"x`, `NaN`, `Infinity`}
+	HostBroken  = []string{`01`, `1.`, `-.5`, `[1,02]`, `+1`, `.5`, `1e`, `--1`, ``, ` `, `{`, `[1,`, `[1 2]`, `{"a"}`, `{"a":}`, `1 2`, `nul`, `tru`, `[1]]`, `{"a":1,}`, `[,]`, `"unterminated`, `{a:1}`, `'x'`, `}`, "\x00", `[1]x`, `{"a":1}}`, `"\ud800"x`, `NaN`, `Infinity`}
 )
